@@ -330,3 +330,344 @@ def replay(payload):
     if v.get("n_non_unique"):
         return True
     return False
+
+
+# =========================================================================================== C16
+def c16(tier):
+    ck = Check("C16", tier, "other",
+               "block.trials_per_sample() equals the trial count computed by an independent reading of the documented arithmetic (spec.model.geometry) "
+               "for every design of D, and every sequence returned by every strategy has exactly that many entries for every user factor. "
+               "Proved links (pyvc.wp): __trials_required_for_crossing returns the smallest trial count with `crossing_size` applicable trials "
+               "(partial correctness), applies_to_trial is the documented start/stride progression.")
+    run_wp(ck, ["trials_required_for_crossing", "applies_to_trial"], budget_ms(tier), prefix="C16.link.")
+    ds = SC.design_space(tier, seed())
+    strats = ["IterateSATGen", "RandomGen", "SMGen"] + (["CMSGen", "UniGen", "IterateGen"] if tier == "thorough" else [])
+    res = SC.run(ds, strats, dict(n=6, space_limit=10**7), timeout=60)
+    byname = {d["name"]: d for d in ds}
+    for r in res:
+        d = byname[r["name"]]
+        if _skip(ck, r, "C16.count"):
+            continue
+        if "build_error" in r:
+            ck.count(r["name"], nontrivial=False)
+            continue
+        if "T_oracle" in r and "T_lib" in r:
+            ck.count(r["name"])
+            ok = r["T_lib"] == r["T_oracle"]
+            ck.oblig(f"C16.count({r['name']})", "E", "passed" if ok else "failed", detail=None if ok else f"library {r['T_lib']} documented {r['T_oracle']}")
+            if not ok:
+                ck.violation("C16.count", f"{_cls(d, 'count')}:{r['name']}", f"design {r['name']}: trials_per_sample() = {r['T_lib']}, the documented rules give {r['T_oracle']}",
+                             _replay(d, strategy="trials_per_sample"), tags=dict(kind="count", features=SC.feature_class(d)))
+        T = r.get("T_lib")
+        for s in strats:
+            v = r.get(s)
+            if not isinstance(v, dict) or "exception" in v or not v.get("n"):
+                continue
+            ok = v["lens"] == [T] and all(set(ks) == set(r["user_factors"]) for ks in v["keysets"])
+            ck.oblig(f"C16.length({r['name']},{s})", "E", "passed" if ok else "failed", detail=None if ok else f"lengths {v['lens']} keys {v['keysets'][:1]} expected {T} / {r['user_factors']}")
+            if not ok:
+                ck.violation("C16.length", f"{_cls(d, 'length')}:{r['name']}:{s}",
+                             f"design {r['name']}: {s} returned sequences with {v['lens']} entries / factors {v['keysets'][:1]}; the block has {T} trials and factors {r['user_factors']}",
+                             _replay(d, strategy=s), tags=dict(kind="length", strategy=s, features=SC.feature_class(d), block=d["block"]["kind"]))
+        ck.sample(dict(design=r["name"], T=T, T_documented=r.get("T_oracle")))
+    ck.rule = "one case per design of D; trial count compared where the reference reading covers the design, sequence lengths for every strategy that returned something"
+    ck.trust(*TRUST)
+    ck.assume("bounded design space D")
+    return ck.finish()
+
+
+# =========================================================================================== C04 / C17
+def _mismatch_run(tier, ds, timeout=60):
+    return SC.run(ds, ["mismatch", "RandomGen"], dict(n=300 if tier == "quick" else 3000, space_limit=30_000 if tier == "quick" else 150_000,
+                                                       mismatch_limit=30_000 if tier == "quick" else 150_000), timeout=timeout if tier == "quick" else 300)
+
+
+def c04(tier):
+    ck = Check("C04", tier, "exploration",
+               "RandomGen soundness over D: (E) every sequence RandomGen returns is not invalid under the reference reading; and, because rejection "
+               "sampling hides a lenient checker only when the sampler is lucky, (E-exhaustive per design) every candidate sequence of the design "
+               "that the library's own checks accept (constraints' potential_sample_conforms, derived-level recheck, crossing counts — the tests "
+               "RandomGen rejects by) is not invalid. Links proved elsewhere: unranking bijections (C13), windows (C26).")
+    ds = SC.design_space(tier, seed())
+    res = _mismatch_run(tier, ds)
+    byname = {d["name"]: d for d in ds}
+    for r in res:
+        d = byname[r["name"]]
+        if _skip(ck, r, "C04.e2e"):
+            continue
+        if "build_error" in r or "oracle_unsupported" in r or r.get("oracle_errors"):
+            ck.count(r["name"], nontrivial=False)
+            continue
+        ck.count(r["name"])
+        v = r.get("RandomGen")
+        if isinstance(v, dict) and "exception" not in v:
+            ok = v.get("n_invalid", 0) == 0
+            ck.oblig(f"C04.e2e({r['name']})", "E", "passed" if ok else "failed")
+            if not ok:
+                ck.violation("C04.e2e", f"{_cls(d, 'invalid-output')}:{r['name']}", f"design {r['name']}: RandomGen returned an invalid sequence {v['invalid'][0]}",
+                             _replay(d, strategy="RandomGen", invalid=v["invalid"]), tags=dict(kind="invalid-output", features=SC.feature_class(d)))
+        mm = r.get("mismatch", {})
+        if "n_seq" in mm:
+            ok = not mm.get("n_false_accept")
+            ck.oblig(f"C04.conforms.sound({r['name']})", "E", "passed" if ok else "failed", detail=f"{mm['n_seq']} candidate sequences" + ("" if mm.get("exhaustive") else " (truncated)"))
+            if not ok:
+                ck.violation("C04.conforms.sound", f"{_cls(d, 'lenient-check')}:{r['name']}",
+                             f"design {r['name']}: the library's acceptance tests pass an invalid sequence {mm['false_accept'][0]}",
+                             _replay(d, strategy="mismatch", example=mm["false_accept"][0]), tags=dict(kind="lenient-check", features=SC.feature_class(d)))
+            ck.sample(dict(design=r["name"], candidates=mm["n_seq"], valid=mm["n_valid"]))
+    ck.rule = "one case per design of D covered by the reference reading; per design all candidate sequences up to the stated limit"
+    ck.trust(*TRUST[1:])
+    ck.assume("bounded design space D", "all random draws: covered only through the exhaustive acceptance-test obligation, not by sampling")
+    return ck.finish()
+
+
+def c17(tier):
+    ck = Check("C17", tier, "exploration",
+               "sample_mismatch_experiment(block, s) == {} iff s is valid: for every design of D covered by the reference reading, every candidate "
+               "sequence of the design (whole space when it has at most the stated number of sequences) is given to the real checker; definitely "
+               "valid sequences must be accepted, definitely invalid ones rejected, ambiguous ones are not judged.")
+    ds = SC.design_space(tier, seed())
+    res = _mismatch_run(tier, ds)
+    byname = {d["name"]: d for d in ds}
+    for r in res:
+        d = byname[r["name"]]
+        if _skip(ck, r, "C17.iff"):
+            continue
+        mm = r.get("mismatch", {})
+        if r.get("oracle_errors"):
+            ck.count(r["name"], nontrivial=False)      # the design has no valid sequence by construction (C02): "valid" is degenerate, not judged here
+            continue
+        if "build_error" in r or "oracle_unsupported" in r or "n_seq" not in mm:
+            ck.count(r["name"], nontrivial=False)
+            if "exception" in mm:
+                ck.oblig(f"C17.iff({r['name']})", "E", "undecided", detail=str(mm["exception"][:2]))
+            continue
+        ck.count(r["name"])
+        ok = not mm.get("n_false_accept") and not mm.get("n_false_reject")
+        ck.oblig(f"C17.iff({r['name']})", "E", "passed" if ok else "failed",
+                 detail=f"{mm['n_seq']} sequences, {mm['n_valid']} valid" + ("" if ok else f"; false accepts {mm.get('n_false_accept', 0)}, false rejects {mm.get('n_false_reject', 0)}"))
+        if mm.get("n_false_accept"):
+            ck.violation("C17.iff", f"{_cls(d, 'false-accept')}:{r['name']}", f"design {r['name']}: sample_mismatch_experiment reports no mismatch for the invalid sequence {mm['false_accept'][0]}",
+                         _replay(d, strategy="mismatch", example=mm["false_accept"][0]), tags=dict(kind="false-accept", features=SC.feature_class(d)))
+        if mm.get("n_false_reject"):
+            ck.violation("C17.iff", f"{_cls(d, 'false-reject')}:{r['name']}", f"design {r['name']}: sample_mismatch_experiment reports {mm['false_reject'][0][1]} for the valid sequence {mm['false_reject'][0][0]}",
+                         _replay(d, strategy="mismatch", example=mm["false_reject"][0]), tags=dict(kind="false-reject", features=SC.feature_class(d)))
+        ck.sample(dict(design=r["name"], sequences=mm["n_seq"], valid=mm["n_valid"], exhaustive=mm.get("exhaustive")))
+    ck.rule = "one case per design of D covered by the reference reading; per design every candidate sequence (all level sequences of the basic factors with derived levels filled in)"
+    ck.trust(*TRUST[1:])
+    ck.assume("candidates are well-formed: derived factors carry the level their definition gives (perturbed derived levels are not enumerated)",
+              "bounded design space D")
+    return ck.finish()
+
+
+# =========================================================================================== C06
+def c06(tier):
+    ck = Check("C06", tier, "exploration",
+               "Exhausting RandomGen over D: asked for more sequences than exist it returns exactly the valid set of the reference reading, each once "
+               "(times the documented copy multiplicity), and stops; for designs that consist of one crossing round without preamble or leftover and "
+               "on which nothing was rejected, metrics['solution_count'] equals the number of valid sequences. A worker that does not finish within the "
+               "wall-clock limit is reported undecided (a spinning loop is not turned into a verdict).")
+    ds = SC.design_space(tier, seed())
+    res = SC.run(ds, ["sets", "RandomGen", "random_metrics"], dict(n=4000 if tier == "quick" else 20000, space_limit=30_000 if tier == "quick" else 200_000),
+                 timeout=60 if tier == "quick" else 300)
+    byname = {d["name"]: d for d in ds}
+    from collections import Counter
+    for r in res:
+        d = byname[r["name"]]
+        if _skip(ck, r, "C06.exhaust"):
+            continue
+        v = r.get("RandomGen")
+        if "build_error" in r or "lo" not in r or not isinstance(v, dict) or "exception" in v:
+            ck.count(r["name"], nontrivial=False)
+            continue
+        if v["n"] >= (4000 if tier == "quick" else 20000):
+            ck.oblig(f"C06.exhaust({r['name']})", "E", "undecided", detail="not exhausted within the sample limit")
+            continue
+        ck.count(r["name"])
+        lo, up = set(map(_t, r["lo"])), set(map(_t, r["lo"])) | set(map(_t, r["amb"]))
+        keys = [_t(k) for k in v["keys"]]
+        ks = set(keys)
+        missing, extra = lo - ks, ks - up
+        dup = None
+        for k, n in Counter(keys).items():
+            try:
+                want = expected_multiplicity(d, k)
+            except Exception:
+                want = None
+            if want is not None and n != want and k in lo:
+                dup = (dict(k), n, want)
+                break
+        ok = not missing and not extra and not dup
+        ck.oblig(f"C06.exhaust({r['name']})", "E", "passed" if ok else "failed", detail=None if ok else f"missing={len(missing)} extra={len(extra)} multiplicity={dup}")
+        if not ok:
+            ex = dict(next(iter(missing))) if missing else (dict(next(iter(extra))) if extra else dup)
+            ck.violation("C06.exhaust", f"{_cls(d, 'set-mismatch')}:{r['name']}", f"design {r['name']}: exhausted RandomGen differs from the valid set (missing {len(missing)}, extra {len(extra)}, multiplicity {dup}), e.g. {ex}",
+                         _replay(d, strategy="RandomGen"), tags=dict(kind="set-mismatch", strategy="RandomGen", features=SC.feature_class(d)))
+        m = r.get("random_metrics", {})
+        # "designs that need no rejection step": a single CrossBlock whose only constraints are Exclude (handled by construction)
+        # and whose derived factors are within-trial (complex windows are sampled by rejection)
+        fm_ = model.factor_map(d)
+        g_ok = (d["block"]["kind"] == "cross" and all(c[0] == "Exclude" for c in d["block"]["constraints"])
+                and not any(model.is_derived(fm_[f]) and model._complex(fm_, fm_[f]) for f in d["block"]["design"]))
+        if g_ok and m.get("total_rejected") == 0 and m.get("solution_count") is not None and not r["amb"] and "preamble" not in d["tags"]:
+            okc = m["solution_count"] == sum(expected_multiplicity(d, k) for k in lo)
+            ck.oblig(f"C06.count({r['name']})", "E", "passed" if okc else "failed", detail=None if okc else f"solution_count {m['solution_count']} valid {len(lo)}")
+            if not okc:
+                ck.violation("C06.count", f"{_cls(d, 'count')}:{r['name']}", f"design {r['name']}: RandomGen reports solution_count {m['solution_count']}, there are {len(lo)} valid sequences",
+                             _replay(d, strategy="RandomGen"), tags=dict(kind="count", features=SC.feature_class(d)))
+        ck.sample(dict(design=r["name"], valid=len(lo), returned=v["n"], solution_count=m.get("solution_count"), rejected=m.get("total_rejected")))
+    ck.rule = "one case per design of D whose sequence space could be enumerated and on which RandomGen finished within the limits"
+    ck.trust(*TRUST[1:])
+    ck.assume("bounded design space D", "termination of the rejection loop is not proved (wall-clock guard => undecided)")
+    return ck.finish()
+
+
+# =========================================================================================== C09
+def c09(tier):
+    ck = Check("C09", tier, "exploration",
+               "Without-replacement samplers over D: for requested counts n in {0, 1, available-1, available, available+3} IterateSATGen, RandomGen and "
+               "IterateGen return min(n, available) sequences; within one call no solution is returned twice — printed duplicates are allowed only "
+               "up to the copy multiplicity of weighted levels of factors outside the crossing. The blocking clause that makes this so is C27.")
+    ds = SC.design_space(tier, seed(), random_n=25 if tier == "quick" else 300)
+    res = SC.run(ds, ["counts"], dict(n=2500, space_limit=20_000 if tier == "quick" else 150_000), timeout=60 if tier == "quick" else 300)
+    byname = {d["name"]: d for d in ds}
+    from collections import Counter
+    for r in res:
+        d = byname[r["name"]]
+        if _skip(ck, r, "C09.count"):
+            continue
+        if "build_error" in r or "counts" not in r:
+            ck.count(r["name"], nontrivial=False)
+            continue
+        ck.count(r["name"])
+        for s, rec in r["counts"].items():
+            if "exception" in rec:
+                continue
+            avail = rec["available"]
+            if avail >= 2500:
+                ck.oblig(f"C09.count({r['name']},{s})", "E", "undecided", detail="more solutions than the sample limit")
+                continue
+            bad = None
+            for row in rec["rows"]:
+                if row["returned"] != min(row["requested"], avail):
+                    bad = f"requested {row['requested']} of {avail} available, returned {row['returned']}"
+                elif row["keys"] is not None:
+                    for k, n in Counter(map(_t, row["keys"])).items():
+                        try:
+                            cap = expected_multiplicity(d, k)
+                        except Exception:
+                            cap = None
+                        if cap is not None and n > cap:
+                            bad = f"the same sequence returned {n} times in one call (at most {cap} copies are distinct solutions): {dict(k)}"
+            ck.oblig(f"C09.count({r['name']},{s})", "E", "passed" if not bad else "failed", detail=bad)
+            if bad:
+                ck.violation("C09.count", f"{_cls(d, 'count')}:{r['name']}:{s}", f"design {r['name']}, {s}: {bad}", _replay(d, strategy=s),
+                             tags=dict(kind="count", strategy=s, features=SC.feature_class(d)))
+        ck.sample(dict(design=r["name"], available={s: rec.get("available") for s, rec in r["counts"].items()}))
+    ck.rule = "one case per design of D; per design and strategy five requested counts around the number of available solutions"
+    ck.trust(*TRUST[1:])
+    ck.assume("bounded design space D", "'available' is what the strategy itself returns when asked for more than exist (its agreement with the valid set is C02/C06)")
+    return ck.finish()
+
+
+# =========================================================================================== C25 / C26
+def _oracle_sets_check(ck, pid, tier, ds, what):
+    res = SC.run(ds, ["sets", "cnf", "IterateSATGen", "RandomGen"], dict(n=4000 if tier == "quick" else 20000, model_limit=4000 if tier == "quick" else 20000,
+                                                                          space_limit=70_000 if tier == "quick" else 400_000), timeout=60 if tier == "quick" else 300)
+    byname = {d["name"]: d for d in ds}
+    out = {}
+    for r in res:
+        d = byname[r["name"]]
+        if _skip(ck, r, f"{pid}.{what}"):
+            continue
+        if "build_error" in r or "lo" not in r:
+            ck.count(r["name"], nontrivial=False)
+            if "T_lib" in r:
+                out[r["name"]] = r
+            continue
+        ck.count(r["name"])
+        out[r["name"]] = r
+        lo, up = set(map(_t, r["lo"])), set(map(_t, r["lo"])) | set(map(_t, r["amb"]))
+        okT = r.get("T_lib") == r.get("T_oracle")
+        if not okT:
+            ck.oblig(f"{pid}.length({r['name']})", "E", "failed", detail=f"{r.get('T_lib')} vs documented {r.get('T_oracle')}")
+            ck.violation(f"{pid}.length", f"{_cls(d, 'length')}:{r['name']}", f"design {r['name']}: {r.get('T_lib')} trials, the documentation gives {r.get('T_oracle')}", _replay(d, strategy="trials_per_sample"),
+                         tags=dict(kind="length", features=SC.feature_class(d)))
+        for src in ("cnf", "IterateSATGen", "RandomGen"):
+            v = r.get(src, {})
+            if "exception" in v or "keys" not in v:
+                continue
+            if v.get("truncated") or v.get("n", 0) >= (4000 if tier == "quick" else 20000):
+                ck.oblig(f"{pid}.{what}({r['name']},{src})", "E", "undecided", detail="not exhausted")
+                continue
+            ks = set(map(_t, v["keys"]))
+            missing, extra = lo - ks, ks - up
+            ok = not missing and not extra
+            tier_ = "S" if src == "cnf" else "E"
+            ck.oblig(f"{pid}.{what}({r['name']},{src})", tier_, ("proved" if tier_ == "S" else "passed") if ok else ("refuted" if tier_ == "S" else "failed"),
+                     detail=None if ok else f"missing {len(missing)} extra {len(extra)}")
+            if not ok:
+                ex = dict(next(iter(missing))) if missing else dict(next(iter(extra)))
+                ck.violation(f"{pid}.{what}", f"{_cls(d, 'set-mismatch')}:{r['name']}:{src}",
+                             f"design {r['name']}: {src} solution set differs from the documented one ({len(missing)} valid sequences missing, {len(extra)} invalid present), e.g. {ex}",
+                             _replay(d, strategy=src), tags=dict(kind="set-mismatch", strategy=src, features=SC.feature_class(d)))
+        ck.sample(dict(design=r["name"], T=r.get("T_lib"), valid=len(lo), ambiguous=len(up) - len(lo)))
+    return out
+
+
+def c25(tier):
+    ck = Check("C25", tier, "other",
+               "Nest(outer, inner) over D: trial count = outer x inner (no preamble), outer crossed factors constant within each inner run, outer crossing "
+               "over the groups, inner crossing and constraints within each group — decided by comparing the compiled formula's model set (tier S) and "
+               "both samplers' exhausted sets with the reference reading; associativity by equality of the solution sets of Nest(Nest(a,b),c) and "
+               "Nest(a,Nest(b,c)).")
+    from spec import designs as DS
+    ds = [d for d in DS.curated() if "nest" in d["tags"]]
+    facts = _oracle_sets_check(ck, "C25", tier, ds, "nest")
+    # associativity (oracle-free): both nestings, same factors
+    res = SC.run([d for d in ds if "nest-nest" in d["tags"]], ["IterateSATGen"], dict(n=5000, space_limit=10**9), timeout=120)
+    sets = {r["name"]: r for r in res}
+    a, b = sets.get("nest-nest"), sets.get("nest-nest-right")
+    if a and b and isinstance(a.get("IterateSATGen"), dict) and isinstance(b.get("IterateSATGen"), dict) and "keys" in a["IterateSATGen"] and "keys" in b["IterateSATGen"]:
+        sa, sb = set(map(_t, a["IterateSATGen"]["keys"])), set(map(_t, b["IterateSATGen"]["keys"]))
+        ok = sa == sb and a.get("T_lib") == b.get("T_lib")
+        ck.oblig("C25.assoc(nest-nest)", "E", "passed" if ok else "failed", detail=f"{len(sa)} vs {len(sb)} sequences, T {a.get('T_lib')} vs {b.get('T_lib')}")
+        ck.count("assoc")
+        if not ok:
+            byname = {d["name"]: d for d in ds}
+            ck.violation("C25.assoc", "assoc:nest-nest", f"Nest(Nest(a,b),c) has {len(sa)} sequences of {a.get('T_lib')} trials, Nest(a,Nest(b,c)) has {len(sb)} of {b.get('T_lib')}",
+                         _replay(byname["nest-nest"], strategy="IterateSATGen"), tags=dict(kind="assoc"))
+    else:
+        ck.oblig("C25.assoc(nest-nest)", "E", "undecided", detail="a nesting did not finish")
+    ck.rule = "one case per Nest design of the curated core (outer/inner sizes 2-3, constraints on inner block, on the Nest, uncrossed outer factor, nested Nest)"
+    ck.trust(*TRUST)
+    ck.assume("run-length / Pin / count constraints on the OUTER block are outside the reference reading (docs do not say trials or groups); those designs are only compared between samplers (C07)")
+    return ck.finish()
+
+
+def c26(tier):
+    ck = Check("C26", tier, "other",
+               "Scoping of constraints under Repeat / Merge / Nest over D: designs placing each constraint class (i) on the inner block and (ii) on the "
+               "combinator, with and without preamble and with partial last repetitions; the compiled formula's model set (tier S) and both samplers "
+               "are compared with the reference reading (per-repetition windows incl. preceding preamble trials vs. whole sequence). The mechanism is "
+               "proved for all inputs by pyvc.wp: map_block_trial_ranges enumerates exactly the windows [s0 + j(L-p), min(s0 + j(L-p) + L, T)).")
+    run_wp(ck, ["map_block_trial_ranges"], budget_ms(tier), prefix="C26.link.")
+    from spec import designs as DS
+    ds = [d for d in DS.curated() if any(t in d["tags"] for t in ("scope-inner", "scope-outer", "repeat", "merge"))]
+    ds += [d for d in DS.random_designs(seed(), 60 if tier == "quick" else 600) if "repeat" in d["tags"]]
+    facts = _oracle_sets_check(ck, "C26", tier, ds, "scope")
+    # inner vs outer placement must differ where the documentation says it does (sanity of the design pairs, oracle-free)
+    pairs = [("repeat-atmost-inner-min6", "repeat-atmost-outer-min6"), ("repeat-atmost-crossed-inner", "repeat-atmost-crossed-outer"), ("merge-inner-atmost", "merge-outer-atmost")]
+    for i, o in pairs:
+        if i in facts and o in facts and "keys" in facts[i].get("IterateSATGen", {}) and "keys" in facts[o].get("IterateSATGen", {}):
+            si, so = set(map(_t, facts[i]["IterateSATGen"]["keys"])), set(map(_t, facts[o]["IterateSATGen"]["keys"]))
+            ok = so < si
+            ck.oblig(f"C26.inner_vs_outer({i})", "E", "passed" if ok else "failed", detail=f"inner placement {len(si)} sequences, combinator placement {len(so)}")
+            if not ok:
+                byname = {d["name"]: d for d in ds}
+                ck.violation("C26.inner_vs_outer", f"scope-pair:{i}", f"the constraint on the combinator ({len(so)} sequences) does not strictly refine the per-repetition placement ({len(si)})",
+                             _replay(byname[i], strategy="IterateSATGen"), tags=dict(kind="scope-pair"))
+    ck.rule = "one case per composed design of D (curated scope pairs + seeded Repeat designs)"
+    ck.trust(*TRUST)
+    ck.assume("bounded design space D", "partial last repetition: Pin with negative index, ExactlyK and runs cut at the end are ambiguous in the docs and not judged")
+    return ck.finish()
